@@ -303,8 +303,11 @@ def gen_del(rng, n):
         if entity == "gene":
             universe = [g for g in universe if any(re.search(r"\b%s\b" % g, r.get("gpr") or "") for r in net["rxns"])]
         c = {"kind": "del", "net": net, "entity": entity, "double": k % 3 == 0,
-             "method": "linear moma" if k % 4 == 3 else "fba", "processes": 2 if k % 5 == 1 else 1,
-             "style": "id" if k % 2 == (k // 2) % 2 else "obj", "ref": "given" if k % 8 == 3 else "default",
+             # (k % 4 == 3 alone is always odd = reaction deletions: k % 8 == 6 brings linear MOMA to gene deletions,
+             #  single and double, with and without a caller-supplied reference)
+             "method": "linear moma" if (k % 4 == 3 or k % 8 == 6) else "fba", "processes": 2 if k % 5 == 1 else 1,
+             "style": "id" if k % 2 == (k // 2) % 2 else "obj",
+             "ref": "given" if (k % 8 == 3 or k % 16 == 6) else "default",
              "l1": pick_list(rng, universe), "l2": None}
         if c["double"]:
             c["l2"] = pick_list(rng, universe)
